@@ -144,6 +144,11 @@ func VerifyFunc(w *World, cs *ContractSet, ct *Contract) *FuncResult {
 	for _, u := range ct.Uses {
 		e.useLemma(ct, u)
 	}
+	if e.lockChecking() {
+		if lr, mode, ok := e.holdsLock(st, ct, fn, args); ok {
+			st.locks[lr.S] = mode
+		}
+	}
 	entry := st.clone()
 	e.entry = entry
 	e.topArgs = clauseArgs(st)
@@ -160,6 +165,18 @@ func VerifyFunc(w *World, cs *ContractSet, ct *Contract) *FuncResult {
 			trs = []retInfo{{out, rets}}
 		}
 		for ri, tr := range trs {
+			if e.lockChecking() {
+				// balance: the function returns with exactly the locks it was entered with
+				same := len(tr.st.locks) == len(entry.locks)
+				for k, v := range entry.locks {
+					if tr.st.locks[k] != v {
+						same = false
+					}
+				}
+				if !same {
+					e.oblige(tr.st, "lock", fmt.Sprintf("lock.balance@r%d", ri+1), tFalse, "a return path leaves with other locks held than at entry")
+				}
+			}
 			all := append(append([]Value{}, clauseArgs(tr.st)...), tr.vals...)
 			for i, cl := range ct.Ensures {
 				if cl.GenFn == "" {
@@ -193,6 +210,9 @@ func VerifyFunc(w *World, cs *ContractSet, ct *Contract) *FuncResult {
 		e.probe(out, "vacuity.exit", "exit")
 	} else if len(ct.Ensures) > 0 {
 		e.note("no path of " + shortKey(ct.Key) + " returns normally")
+	}
+	if e.nGuard+e.nLockOps > 0 {
+		e.note(fmt.Sprintf("lock discipline in %s: %d guarded field accesses checked (%d of them hold syntactically: the guarding lock is in the held set), %d lock operations tracked", shortKey(ct.Key), e.nGuard, e.nGuardSyntactic, e.nLockOps))
 	}
 	res.Obls = e.obls
 	res.Errs = append(res.Errs, e.errs...)
